@@ -49,6 +49,8 @@ InitH == [ called   |-> {},                       \* ops whose call was invoked
            minMax   |-> Pool0,
            lowering |-> FALSE,                    \* maximum lowered below the live count, despawn not yet returned
            panicked |-> {},                       \* ops whose closure panicked
+           atRisk   |-> {},                       \* objects with unfinished work at the moment a panic finished unwinding (outside C15's "afterwards")
+           panicOn  |-> {},                       \* <<op, thread>>: where the panic is unwinding
            pdone    |-> {},                       \* objects whose panic has finished unwinding
            loud     |-> {},                       \* calls issued on an object after its panic finished unwinding
            polled   |-> {},                       \* future ops that have been polled/awaited at least once
@@ -62,7 +64,10 @@ StackOf(h, t) == IF t \in DOMAIN h.cstack THEN h.cstack[t] ELSE << >>
 SetStack(h, t, s) == [h EXCEPT !.cstack = [x \in (DOMAIN h.cstack) \cup {t} |-> IF x = t THEN s ELSE h.cstack[x]]]
 
 Accepted(h, a) == h.rets[a] = 0
-Finished(h, a) == a \in h.ended \/ a \in h.cancel
+Finished(h, a) == a \in h.ended \/ a \in h.cancel \/ (K(a) = "suspend" /\ a \in h.resumed)
+
+\* objects that have unfinished work right now
+Unfinished(h) == {O(a) : a \in {x \in h.called : IsClosureOp(x) /\ ~Finished(h, x) /\ h.rets[x] \in {0, NoRet}}}
 
 (***************************************************************************)
 (* call / ret of an API call by thread t                                   *)
@@ -92,7 +97,9 @@ ObsRet(h, t, op, c) ==
       \* C15: a call on a panicked object fails loudly, without running anything
       h7 == Viol(h6, op \in h.loud /\ ~(c = 2 /\ h.scnt[op] = 0), "C15:not-loud")
       \* a caller that observed the panic of its own closure: the panic has finished unwinding
-      h8 == IF c = 2 /\ op \in h.panicked /\ IsClosureOp(op) THEN [h7 EXCEPT !.pdone = @ \cup {O(op)}] ELSE h7
+      h8 == IF c = 2 /\ (\E x \in h.panicOn : x[2] = t)
+            THEN [h7 EXCEPT !.pdone = @ \cup {O(a[1]) : a \in {x \in h.panicOn : x[2] = t}}, !.atRisk = @ \cup Unfinished(h)]
+            ELSE h7
       \* C17: after despawn returned the pool is within its maximum
       h9 == IF K(op) = "despawn" THEN Viol([h8 EXCEPT !.lowering = FALSE], h8.live > h8.maxNow, "C17:despawn") ELSE h8
       \* C05: drop returned => the value was freed exactly once
@@ -125,7 +132,7 @@ ObsEnd(h, t, op) ==
       h3 == Viol(h2, K(op) \in {"sync", "try_sync"} /\ h.rets[op] # NoRet, "C14:closure-outside-call")
   IN  h2
 
-ObsPanic(h, t, op) == [h EXCEPT !.panicked = @ \cup {op}, !.act[O(op)] = @ \ {op}]
+ObsPanic(h, t, op) == [h EXCEPT !.panicked = @ \cup {op}, !.panicOn = @ \cup {<<op, t>>}, !.act[O(op)] = @ \ {op}]
 
 \* A future_sync future (or any stored future) was dropped by its owner
 ObsDropped(h, t, f) ==
@@ -164,7 +171,7 @@ ObsSpawn(h, p) ==
 ObsExit(h, t, p, panicking) ==
   LET h1 == IF p = 1 THEN [h EXCEPT !.live = IF @ > 0 THEN @ - 1 ELSE 0] ELSE h
       \* the unwinding thread is finished: the objects whose operation panicked on it are now 'panicked objects'
-      h2 == IF panicking = 1 THEN [h1 EXCEPT !.pdone = @ \cup {O(a) : a \in h.panicked}] ELSE h1
+      h2 == IF panicking = 1 THEN [h1 EXCEPT !.pdone = @ \cup {O(a[1]) : a \in {x \in h.panicOn : x[2] = t}}, !.atRisk = @ \cup Unfinished(h)] ELSE h1
   IN  h2
 
 ObsSetMax(h, n) == [h EXCEPT !.maxNow = n, !.minMax = IF n < @ THEN n ELSE @, !.lowering = (h.lowering \/ n < h.live)]
@@ -205,6 +212,10 @@ ObsQuiescent(h, qs, single) ==
                         ((K(w) \in {"await", "wait_sync"} /\ OpTab[w].f = f) \/ (w = f /\ OpTab[w].then \in {"await", "sync"}))
       h4 == Viol(h3, (PoolAvailable(h) \/ single) /\ h.panicked = {} /\ \E f \in Ops : awaited(f) /\ h.res[f] = 0 /\ ~StuckObj(h, O(f)),
                  "C07:await-stuck")
-  IN  h4
+      \* C15: objects without a panicked operation stay usable and the pool keeps its capacity
+      healthy(o) == ~\E a \in h.panicked : O(a) = o
+      h5 == Viol(h4, h.panicked # {} /\ h.minMax >= 1 /\ Cardinality(Blockers(h)) < h.minMax
+                     /\ \E a \in Ops : notDone(a) /\ healthy(O(a)) /\ O(a) \notin h.atRisk /\ ~StuckObj(h, O(a)) /\ K(a) # "fsync", "C15:healthy-stranded")
+  IN  h5
 
 =============================================================================
